@@ -21,6 +21,13 @@ func init() {
 		{Name: "C prelude: F_MAX picks the smaller operand", File: "internal/wat/watutil/wat2c/_math_x.c", Old: ": ((x) > (y)) ? (x) : (y))", New: ": ((x) < (y)) ? (x) : (y))", Expect: "c-prelude-minmax :: F_MAX"},
 		{Name: "C prelude: F_MAX answers the other operand for a NaN", File: "internal/wat/watutil/wat2c/_math_x.c", Old: "#define F_MAX(x, y)                                            \\\n  ((((x) != (x)) || ((y) != (y))) ? ((x) + (y))", New: "#define F_MAX(x, y)                                            \\\n  (((x) != (x)) ? (y) : ((y) != (y)) ? (x)", Expect: "c-prelude-minmax :: F_MAX"},
 		{Name: "data literal: question mark written raw", File: "internal/wat/watutil/wat2c/wat2c_code.go", Old: "+={}[]|:;'<>,./\", rune(x)):", New: "+={}[]|:;'<>,.?/\", rune(x)):", Expect: "c-data-literal :: buildMemory_data: `??x`"},
+		{Name: "i32.add in signed arithmetic", File: f, Old: "R%d.i32 = (int32_t)((uint32_t)R%d.i32 + (uint32_t)R%d.i32);", New: "R%d.i32 = R%d.i32 + R%d.i32;", Expect: "c-template-semantics :: i32.add"},
+		{Name: "i64.mul in signed arithmetic", File: f, Old: "R%d.i64 = (int64_t)((uint64_t)R%d.i64 * (uint64_t)R%d.i64);", New: "R%d.i64 = R%d.i64 * R%d.i64;", Expect: "c-template-semantics :: i64.mul"},
+		{Name: "i64.shl shifts the signed value", File: f, Old: "R%d.i64 = (int64_t)((uint64_t)R%d.i64 << (((uint64_t)R%d.i64)&63));", New: "R%d.i64 = R%d.i64 << (((uint64_t)R%d.i64)&63);", Expect: "c-template-semantics :: i64.shl"},
+		{Name: "C prelude: i32 rotate count stays signed", File: "internal/wat/watutil/wat2c/_math_x.c", Old: "#define I32_ROTL(x, y) ((int32_t)ROTL((uint32_t)(x), (uint32_t)(y), 31))", New: "#define I32_ROTL(x, y) ((int32_t)ROTL((uint32_t)(x), y, 31))", Expect: "c-template-semantics :: i32.rotl"},
+		{Name: "f32.nearest rounds halves away from zero", File: f, Old: "R%d.f32 = rintf(R%d.f32);", New: "R%d.f32 = roundf(R%d.f32);", Expect: "c-template-semantics :: f32.nearest"},
+		{Name: "f64.convert_i64_u converts the signed view", File: f, Old: "R%d.f64 = (double)(R%d.u64);", New: "R%d.f64 = (double)(R%d.i64);", Expect: "c-template-semantics :: f64.convert_i64_u"},
+		{Name: "i32.shr_u masks the count with 63", File: f, Old: "R%d.i32 = (int32_t)((uint32_t)(R%d.i32)>>(uint32_t)(R%d.i32&31));", New: "R%d.i32 = (int32_t)((uint32_t)(R%d.i32)>>(uint32_t)(R%d.i32&63));", Expect: "c-template-semantics :: i32.shr_u"},
 		{Name: "i32.const template ends in its comment without a newline", File: f, Old: "\"%sR%d.i32 = %d; // %s\\n\", indent, sp0, i.X, insString(i))", New: "\"%sR%d.i32 = %d; // %s\", indent, sp0, i.X, insString(i))", Expect: "line-terminated :: wat2c"},
 		{Name: "br_table locates the first result after popping them", File: f, Old: "\t\t\t\t\tfirstResultOffset := retIdxList[0]\n", New: "\t\t\t\t\tfirstResultOffset := stk.Len() - len(destScopeResults)\n", Expect: "carried-results-located :: wat2c INS_BR_TABLE"},
 		{Name: "br_table writes the moves before the case label", File: f, Old: "\t\t\t\t\t\tfmt.Fprintf(w, \"%s%s\\n\", indent, caseLabel)\n\t\t\t\t\t\tcaseLabel = \"\"\n", New: "", Expect: "switch-arm-statements-labelled :: wat2c INS_BR_TABLE: case label, results moved"},
@@ -32,8 +39,8 @@ func init() {
 		{Name: "call pops its arguments first to last", File: f, Old: "\t\tfor k := len(argList) - 1; k >= 0; k-- {\n\t\t\tx := fnCallType.Params[k]", New: "\t\tfor k := 0; k < len(argList); k++ {\n\t\t\tx := fnCallType.Params[k]", Expect: "list-stack-order :: wat2cWorker.buildFunc_ins: Pop per element of fnCallType.Params"},
 		{Name: "call pushes its results last to first", File: f, Old: "\t\t\tfor k, retType := range fnCallType.Results {\n\t\t\t\treti := stk.Push(retType)", New: "\t\t\tfor k := len(fnCallType.Results) - 1; k >= 0; k-- {\n\t\t\t\tretType := fnCallType.Results[k]\n\t\t\t\treti := stk.Push(retType)", Expect: "list-stack-order :: wat2cWorker.buildFunc_ins: Push per element of fnCallType.Results"},
 		{Name: "C prelude: i64.ctz(0) answers 32", File: "internal/wat/watutil/wat2c/_math_x.c", Old: "#define I64_CTZ(x) ((x) ? __builtin_ctzll(x) : 64)", New: "#define I64_CTZ(x) ((x) ? __builtin_ctzll(x) : 32)", Expect: "c-prelude-bit-macros :: I64_CTZ"},
-		{Name: "C prelude: i64 rotate masks the count with 31", File: "internal/wat/watutil/wat2c/_math_x.c", Old: "#define I64_ROTL(x, y) ((int64_t)ROTL((uint64_t)(x), y, 63))", New: "#define I64_ROTL(x, y) ((int64_t)ROTL((uint64_t)(x), y, 31))", Expect: "c-prelude-bit-macros :: I64_ROTL"},
-		{Name: "C prelude: i32 rotate on the signed value", File: "internal/wat/watutil/wat2c/_math_x.c", Old: "#define I32_ROTR(x, y) ((int32_t)ROTR((uint32_t)(x), y, 31))", New: "#define I32_ROTR(x, y) ROTR(x, y, 31)", Expect: "c-prelude-bit-macros :: I32_ROTR: unsigned operand"},
+		{Name: "C prelude: i64 rotate masks the count with 31", File: "internal/wat/watutil/wat2c/_math_x.c", Old: "#define I64_ROTL(x, y) ((int64_t)ROTL((uint64_t)(x), (uint64_t)(y), 63))", New: "#define I64_ROTL(x, y) ((int64_t)ROTL((uint64_t)(x), (uint64_t)(y), 31))", Expect: "c-prelude-bit-macros :: I64_ROTL"},
+		{Name: "C prelude: i32 rotate on the signed value", File: "internal/wat/watutil/wat2c/_math_x.c", Old: "#define I32_ROTR(x, y) ((int32_t)ROTR((uint32_t)(x), (uint32_t)(y), 31))", New: "#define I32_ROTR(x, y) ROTR(x, (uint32_t)(y), 31)", Expect: "c-prelude-bit-macros :: I32_ROTR: unsigned operand"},
 		{Name: "val_t loses its unsigned 64-bit view", File: "internal/wat/watutil/wat2c/wat2c_code.go", Old: "\tfmt.Fprintf(w, \"  uint64_t  u64;\\n\")\n", New: "", Expect: "union-member-exists :: R<n>.u64"},
 		{Name: "f64 constants printed with %f", File: f, Old: "\"%sR%d.f64 = %x; // %s\\n\"", New: "\"%sR%d.f64 = %f; // %s\\n\"", Expect: "float-literal-exact"},
 		{Name: "br copies its results from the last to the first", File: f, Old: "\t\t\t\tfor i := 0; i < len(destScopeResults); i++ {\n\t\t\t\t\txType := destScopeResults[i]\n\t\t\t\t\treti := retIdxList[i]", New: "\t\t\t\tfor i := len(destScopeResults) - 1; i >= 0; i-- {\n\t\t\t\t\txType := destScopeResults[i]\n\t\t\t\t\treti := retIdxList[i]", Expect: "overlap-copy-direction"},
@@ -43,7 +50,7 @@ func init() {
 		{Name: "data literal: 'F' after a hex escape not split off", File: "internal/wat/watutil/wat2c/wat2c_code.go", Old: "if prevIsHexEscape && x <= 'F' {", New: "if prevIsHexEscape && x < 'F' {", Expect: "c-data-literal"},
 		{Name: "data literal: double quote written raw", File: "internal/wat/watutil/wat2c/wat2c_code.go", Old: "\t\t\t\tsb.WriteString(\"\\\\\\\"\")", New: "\t\t\t\tsb.WriteString(\"\\\"\")", Expect: "c-data-literal"},
 		{Name: "i32.lt_u compares signed", File: f, Old: "R%d.i32 = ((uint32_t)(R%d.i32)<(uint32_t)(R%d.i32))? 1: 0;", New: "R%d.i32 = (R%d.i32<R%d.i32)? 1: 0;", Expect: "c-signedness :: i32.lt_u"},
-		{Name: "i64.sub operands swapped", File: f, Old: "fmt.Fprintf(w, \"%sR%d.i64 = R%d.i64 - R%d.i64; // %s\\n\",\n\t\t\tindent, ret0, sp1, sp0,", New: "fmt.Fprintf(w, \"%sR%d.i64 = R%d.i64 - R%d.i64; // %s\\n\",\n\t\t\tindent, ret0, sp0, sp1,", Expect: "c-operand-order :: i64.sub"},
+		{Name: "i64.sub operands swapped", File: f, Old: "fmt.Fprintf(w, \"%sR%d.i64 = (int64_t)((uint64_t)R%d.i64 - (uint64_t)R%d.i64); // %s\\n\",\n\t\t\tindent, ret0, sp1, sp0,", New: "fmt.Fprintf(w, \"%sR%d.i64 = (int64_t)((uint64_t)R%d.i64 - (uint64_t)R%d.i64); // %s\\n\",\n\t\t\tindent, ret0, sp0, sp1,", Expect: "c-operand-order :: i64.sub"},
 		{Name: "i64.shr_s mask 31", File: f, Old: "R%d.i64 = R%d.i64 >> (((uint64_t)R%d.i64)&63);", New: "R%d.i64 = R%d.i64 >> (((uint64_t)R%d.i64)&31);", Expect: "c-shift-mask :: i64.shr_s"},
 		{Name: "i32.ge_s uses >", File: f, Old: "R%d.i32 = (R%d.i32>=R%d.i32)? 1: 0;", New: "R%d.i32 = (R%d.i32>R%d.i32)? 1: 0;", Expect: "c-operator :: i32.ge_s"},
 		{Name: "f64.lt reads the f32 view", File: f, Old: "R%d.i32 = (R%d.f64<R%d.f64)? 1: 0;", New: "R%d.i32 = (R%d.f64<R%d.f32)? 1: 0;", Expect: "c-slot-type :: f64.lt"},
@@ -114,7 +121,7 @@ func runC03(c *Ctx) {
 		"(5) the C operator / libm function / helper macro is the one for the mnemonic, unsigned mnemonics compute on unsigned views and signed ones do not, shift counts are masked with width-1, " +
 		"narrow loads extend with the mnemonic's signedness and transfer the mnemonic's width, and integer conversions do not narrow through a smaller integer type. " +
 		"(6) around the templates: list pops last-to-first and pushes first-to-last, carried results moved upwards, the memory.grow condition cannot wrap, every register view is a member of the emitted val_t, float values are printed as hexadecimal floating constants, the rotate macros work on the unsigned value, x rem_s -1 is guarded. " +
-		"NOT decided: trap behaviour of C operators (division by zero, out-of-range float->int), NaN propagation of fmin/fmax, memory bounds, the stack model of blocks and branches beyond these rules, signed-overflow assumptions of optimising C compilers."
+		"NOT decided: trap behaviour of C operators (division by zero, out-of-range float->int: operands WebAssembly traps on are not evaluated), memory bounds, the stack model of blocks and branches beyond these rules."
 	c.Trusted = []string{"go/packages, go/types (x/tools v0.29.0)", "embedded WebAssembly instruction table", "C operator / libm table in c03.go"}
 	c.Exhaust = true
 	p := c.Load(LoadOpt{Light: true}, "./internal/wat/token", "./internal/wat/watutil/wat2c")
@@ -145,6 +152,7 @@ func runC03(c *Ctx) {
 	c.Min("slot-number-not-value", "functions of wat2c that hold slot numbers", slotNumberNotValue(c, p, pk, "wat2c "), 2)
 	c03Prelude(c)
 	c03PreludeMinMax(c)
+	c03TemplateSemantics(c, p, by)
 	c03PreludeUsers(c, p, pk, by)
 	var names []string
 	for k := range ins {
